@@ -20,7 +20,7 @@ def body(c):
     n = 4 if c.quick else 5
     flats = execcheck.gen_docs(c, "Query", n, ["skip:$s", "include:$s"], "q")
     total = len(flats)
-    cap = 3000 if c.quick else 50000
+    cap = 3000 if c.quick else 25000
     exhaustive = len(flats) <= cap
     if not exhaustive:
         flats = rng.sample(flats, cap)
@@ -34,12 +34,12 @@ def body(c):
         doc = gqlgen.tree_from_flat(json.loads(fs), "query")
         forms = gqlgen.var_forms(doc)
         if len(forms) > 1:
-            forms = rng.sample(forms, 2 if c.quick else 6)
+            forms = rng.sample(forms, 2 if c.quick else 4)
         for form in forms:
             d, supplied = execcheck.with_vars(doc, form)
             cases.append({"id": 0, "flavour": "dynamic", "doc": d, "opIndex": 1, "vars": supplied, "world": rng.choice(worlds), "schedule": []})
     # random type systems, random documents, worlds with invalid leaf values
-    nts = 40 if c.quick else 400
+    nts = 40 if c.quick else 300
     per = 30 if c.quick else 60
     nrand = 0
     for k in range(nts):
